@@ -11,7 +11,7 @@ import math
 import numpy as np
 
 from ..core import import_library
-from ..probe import Probe, Reach
+from ..probe import Probe, Reach, check_unmutated, snapshot_arrays
 from ..ref import norms as R
 
 WORKERS = {"quick": 1, "thorough": 16}
@@ -48,11 +48,13 @@ class NormMonitor:
     def install(self, probe):
         for name in R.REF:
             cls = getattr(self.fl, name)
-            probe.wrap(cls, "compute", after=self._after(name))
+            probe.wrap(cls, "compute", before=snapshot_arrays, after=self._after(name))
 
     def _after(self, name):
         def after(args, kwargs, token, result, exc):
-            self.judge(name, args[1], args[2], result, exc)
+            a = check_unmutated(self.ctx, f"{name}.compute", args, token, 1)
+            b = check_unmutated(self.ctx, f"{name}.compute", args, token, 2)
+            self.judge(name, a, b, result, exc)
 
         return after
 
@@ -276,6 +278,21 @@ def run(ctx):
                         ctx.violation(f"{name}: not associative", {"norm": name, "a": A[j], "b": B[j], "c": C[j]}, float(right[j]), float(left[j]))
             if i < len(names):
                 ctx.sample("random", {"norm": name, "form": form, "a": a[:4], "b": b[:4]})
+        # one norm instance, the same operand arrays refilled in place between calls (stale results, aliasing)
+        for i, rnd in ctx.cases("reuse", ctx.scale(32, 640)):
+            name = names[i % len(names)]
+            norm = getattr(fl, name)()
+            a, b = np.array(specials(rnd, 16)), np.array(specials(rnd, 16))
+            for _ in range(4):
+                r1 = norm.compute(a, b)
+                keep = np.array(r1, copy=True)
+                a[:] = specials(rnd, 16)
+                if rnd.random() < 0.5:
+                    b[:] = specials(rnd, 16)
+                ctx.hit("event:operands refilled in place")
+                if not np.array_equal(np.asarray(r1), keep, equal_nan=True):
+                    ctx.violation(f"{name}: a returned result changes when an operand array is later modified (aliases its operand)", {"norm": name}, keep, r1)
+            norm.compute(a, b)
         mon.check_laws()
         probe.report(ctx)
         reach.report(ctx)
